@@ -48,6 +48,19 @@ Theorem C14_runtime : forall prom s,
 Proof. exact runtime_spec. Qed.
 Print Assumptions C14_runtime.
 
+(* "the per-metric counts add up to those totals", for what GET /api/v1/shard/samples/ serves in every state of the model:
+   per job the kept samples are the sum of the per-metric kept counts; and the statistics a target contributes are those
+   of its last scrape if that delivered a whole payload (also under a stop reason), nothing after a failed one *)
+Theorem C14_samples_add_up : forall s m, In m (model_samples s) ->
+  sm_scraped m = fst (sm_keep m) + fst (sm_drop m) /\ fst (sm_keep m) = snd (sm_keep m) /\ fst (sm_drop m) = 0.
+Proof. exact samples_add_up. Qed.
+Print Assumptions C14_samples_add_up.
+
+Theorem C14_last_statistics : forall st r stopped,
+  ss_last (scrape_status st r stopped) = match r with ScrOk kept all => Some (kept, all) | ScrFail => None end.
+Proof. exact last_stats_after_scrape. Qed.
+Print Assumptions C14_last_statistics.
+
 (* the Go mean is the integer mean on concrete windows (exactness of div_round for all sums < 2^53 is validated
    differentially, not proved) *)
 Example C14_mean_examples :
